@@ -94,6 +94,20 @@ TPermWin ==
               [n |-> ev.n, epoch |-> ev.epoch, from |-> ev.from])
   /\ UNCHANGED <<file, delivered, bnext, cur, cnext, perm>>
 
+BatchLines == 100000     \* tuning.NumLinesInBatch
+BatchChunks == 16         \* tuning.NumChunksInBatch
+\* how Batches / Chunks cut n lines: one row per batch <<s, e, c0s, c0e, c1s, c1e, ...>>
+TPlan ==
+  /\ IsEvent("plan")
+  /\ LET ev == Trace[l]
+         bs == [i \in 1..Len(ev.plan) |-> [s |-> ev.plan[i][1], e |-> ev.plan[i][2]]]
+         cs(i) == [j \in 1..((Len(ev.plan[i]) - 2) \div 2) |-> [s |-> ev.plan[i][2 * j + 1], e |-> ev.plan[i][2 * j + 2]]]
+     IN /\ Expect(Len(bs) > 200 \/ Partitions(bs, 0, ev.n), ev, "C20/batches-do-not-partition", [n |-> ev.n, batches |-> bs])
+        /\ \A i \in 1..Len(bs) : Expect(Partitions(cs(i), bs[i].s, bs[i].e), ev, "C20/chunks-do-not-partition-the-batch", [n |-> ev.n, batch |-> bs[i], chunks |-> cs(i)])
+        \* and they are the cuts of the model (batch and chunk sizes of tuning.go)
+        /\ Expect(Len(bs) > 200 \/ (bs = Batches(ev.n, BatchLines) /\ \A i \in 1..Len(bs) : cs(i) = Chunks(bs[i], BatchLines, BatchChunks)), ev, "X/plan-differs-from-model", [n |-> ev.n])
+  /\ UNCHANGED <<file, delivered, bnext, cur, cnext, perm>>
+
 (****************************** C19 ******************************)
 \* float evaluation with the shipped coefficients vs the engine's integer evaluation, white-relative,
 \* both scaled by 1000: |f - i| < 2250
@@ -124,6 +138,6 @@ TPanic == /\ IsEvent("panic") /\ MM(Trace[l], IF Trace[l].engine THEN "PANIC/eng
           /\ UNCHANGED <<file, delivered, bnext, cur, cnext, perm>>
 
 TInit == l = 1 /\ file = <<>> /\ delivered = {} /\ bnext = 0 /\ cur = [s |-> 0, e |-> 0] /\ cnext = 0 /\ perm = <<>>
-TNext == TFile \/ TCount \/ TEpoch \/ TBatch \/ TChunk \/ TEndEpoch \/ TSub \/ TPerm \/ TPermWin \/ TEvalPair \/ TVec \/ TPanic
+TNext == TPlan \/ TFile \/ TCount \/ TEpoch \/ TBatch \/ TChunk \/ TEndEpoch \/ TSub \/ TPerm \/ TPermWin \/ TEvalPair \/ TVec \/ TPanic
 Done == PrintT("DONE " \o ToString(TLCGet("stats").diameter - 1) \o " " \o ToString(Len(Trace)))
 =============================================================================
